@@ -978,9 +978,15 @@ def omp_join(tu, g, anc):
             return ('ok', '`omp taskgroup` waits for the tasks generated inside it')
         elif nm in OMP_WORKSHARE:
             if not any(x in OMP_PARALLEL for x in names[idx + 1:]):
-                return ('bad', 'omp-directive', 'the loop is executed under `omp %s%s`, which is not a fork-join region of its own: it '
-                        'binds to whatever team encounters it; no team and no join are guaranteed when parallel_for returns (and a '
-                        'nested call is encountered by one thread of the team only)' % (nm, ' nowait' if 'nowait' in cl else ''), d)
+                return ('bad', 'omp-directive', 'the loop is executed under an orphaned `omp %s%s` (no parallel construct of '
+                        'parallel_for around it), which is not a fork-join region of its own: a worksharing construct binds to the '
+                        'team that encounters it and has to be encountered by every thread of that team, in the same order. A '
+                        'parallel_for called inside a parallel region (from the body of an outer parallel_for) is reached by single '
+                        'threads, each with its own count and function object: the runtime pairs the work-shares of different inner '
+                        'loops with one another, so indices are skipped or run by another loop\'s function and the call returns '
+                        'before its indices ran%s; called outside a region there is a team of one and nothing to join'
+                        % (nm, ' nowait' if 'nowait' in cl else '',
+                           ' (and `nowait` removes even the barrier at the end of the loop)' if 'nowait' in cl else ''), d)
         elif nm == 'task':
             pending = pending or (d, '`omp task`: the loop becomes a deferred task')
         elif nm in OMP_TRANSPARENT:
@@ -2715,6 +2721,226 @@ def check_tasksys(ctx, tu, summaries):
         else:
             ctx.undecided(rule, inst, 'the task is treated differently on different paths: %s' % sorted(seqs), loc)
     ctx.floor('R-C01-1/2(TaskSys.cpp)', n, 2, 'scheduleTaskInternal and waitInternal')
+
+
+# ---- R-C01-8: the scheduler a loop is scheduled on / waited on is the one that exists at the time of the call
+SMART_PTR = ('std::unique_ptr<', 'std::shared_ptr<')
+
+
+def _var_decl(tu, n):
+    if n is None or n.get('kind') != 'DeclRefExpr':
+        return None
+    vd = tu.node(n.get('referencedDecl', {}).get('id'))
+    return vd if vd is not None and vd.get('kind') == 'VarDecl' else None
+
+
+def _var_type(vd):
+    ty = vd.get('type') or {}
+    return (ty.get('desugaredQualType') or ty.get('qualType', '')).strip()
+
+
+def _var_storage(tu, vd):
+    if vd.get('tls'):
+        return 'thread'
+    if tu.enclosing_fn(vd) is None or vd.get('storageClass') in ('static', 'extern'):
+        return 'static'
+    return 'auto'
+
+
+def sched_source(tu, e, depth=0):
+    """where a scheduler pointer / reference comes from:
+    ('owner', VarDecl)  read out of a smart pointer with static storage duration at this very point (g->, *g, g.get())
+    ('var', VarDecl)    a raw pointer / reference variable with static or thread storage duration
+    ('new',) ('null',)  or None if the form is not recognised"""
+    n = leaf(tu, e)
+    hops = 0
+    while n is not None and n.get('kind') in ('ParenExpr', 'ImplicitCastExpr', 'CXXStaticCastExpr', 'ExprWithCleanups',
+                                               'MaterializeTemporaryExpr', 'CXXBindTemporaryExpr') and tu.kids(n) and hops < 8:
+        n = leaf(tu, tu.kids(n)[0])
+        hops += 1
+    if n is None or depth > 4:
+        return None
+    k = n.get('kind')
+    ks = tu.kids(n)
+    if k == 'CXXNullPtrLiteralExpr' or (k in ('IntegerLiteral', 'GNUNullExpr') and const_value(tu, n) in (0, None)):
+        return ('null',)
+    if k == 'CXXNewExpr':
+        return ('new',)
+    if k == 'UnaryOperator' and n.get('opcode') in ('*', '&') and ks:
+        return sched_source(tu, ks[0], depth + 1)
+    q = tu.sd(n).get('q', '') or ''
+    if k == 'CXXOperatorCallExpr' and q.startswith(SMART_PTR) and q.endswith(('::operator->', '::operator*')) and len(ks) >= 2:
+        vd = _var_decl(tu, leaf(tu, ks[1]))
+        if vd is not None and _var_storage(tu, vd) != 'auto' and _var_type(vd).startswith(SMART_PTR):
+            return ('owner', vd)
+        return None
+    if k == 'CXXMemberCallExpr' and q.startswith(SMART_PTR) and q.endswith('::get') and ks:
+        s_, obj, args = call_args(tu, n)
+        vd = _var_decl(tu, leaf(tu, obj)) if obj is not None else None
+        if vd is not None and _var_storage(tu, vd) != 'auto' and _var_type(vd).startswith(SMART_PTR):
+            return ('owner', vd)
+        return None
+    if k == 'DeclRefExpr':
+        vd = _var_decl(tu, n)
+        if vd is None:
+            return None
+        ty = _var_type(vd)
+        if ty.startswith(SMART_PTR):
+            return ('owner', vd) if _var_storage(tu, vd) != 'auto' else None
+        if not ty.endswith(('*', '&', '*const', '* const')):
+            return None
+        if _var_storage(tu, vd) != 'auto':
+            return ('var', vd)
+        fnn = tu.enclosing_fn(vd)
+        fn = tu.functions.get(fnn.get('id')) if fnn is not None else None
+        if fn is None:
+            return None
+        writes = [r for r in refs_to(tu, fn, vd['id']) if not is_rvalue_read(tu, r)]
+        if ty.endswith('&'):
+            return sched_source(tu, tu.kids(vd)[0], depth + 1) if tu.kids(vd) else None
+        if writes or not tu.kids(vd):
+            return None             # a local pointer that is assigned again: not followed
+        return sched_source(tu, tu.kids(vd)[0], depth + 1)
+    if k == 'CallExpr':
+        cf = inlinable(tu, n)
+        if cf is None:
+            return None
+        rets = [x for b, i, x in tu.cfg(cf).stmts() if x.get('kind') == 'ReturnStmt' and tu.kids(x)]
+        res = [sched_source(tu, tu.kids(x)[0], depth + 1) for x in rets]
+        if not res or any(r is None for r in res):
+            return None
+        keys = {(r[0], r[1]['id'] if len(r) > 1 else None) for r in res}
+        return res[0] if len(keys) == 1 else None
+    return None
+
+
+def _fns_of_file(tu, file):
+    return [f for f in tu.functions.values() if not f['dep'] and tu.cfg(f) is not None and tu.fn_file(f) == file]
+
+
+def owner_writes(tu, ovd, file):
+    """[(function, node)] for every place of the unit that can replace / release the object owned by the smart pointer ovd,
+    None if the smart pointer is used in a way that is not understood"""
+    READS = ('::operator->', '::operator*', '::get', '::operator bool')
+    out = []
+    for f in _fns_of_file(tu, file):
+        for r in refs_to(tu, f, ovd['id']):
+            up = tu.par(r)
+            hops = 0
+            while up is not None and up.get('kind') in ('ImplicitCastExpr', 'ParenExpr', 'MemberExpr') and hops < 4:
+                up = tu.par(up)
+                hops += 1
+            if up is None:
+                return None
+            q = tu.sd(up).get('q', '') or ''
+            if up.get('kind') in CALLS and q.startswith(SMART_PTR) and q.endswith(READS):
+                continue
+            if up.get('kind') in CALLS and (q.startswith('std::operator==') or q.startswith('std::operator!=')):
+                continue
+            if up.get('kind') in CALLS and q.startswith(SMART_PTR) and q.endswith(('::operator=', '::reset', '::release', '::swap')):
+                out.append((f, up))
+                continue
+            return None
+    return out
+
+
+def check_scheduler_object(ctx, tu):
+    """R-C01-8: scheduleTaskInternal / waitInternal (and whatever they call in TaskSys.cpp) must hand the task to the scheduler
+    that exists now.  initTaskSystemInternal may replace (and thereby destroy) the scheduler at any time between two loops;
+    reading the owning pointer at the call is immune to that, a copy of the raw pointer kept in a static / thread_local
+    variable is not unless every replacement refreshes it."""
+    R = 'R-C01-8'
+    n_ok = 0
+    n_sites = 0
+    for f in _fns_of_file(tu, F_TASKSYS):
+        g = tu.cfg(f)
+        for b, i, n in g.stmts():
+            if n.get('kind') not in CALLS:
+                continue
+            q = tu.sd(n).get('q', '')
+            if q not in (TS + 'AddTaskSetToPipe', TS + 'WaitforTask', TS + 'WaitforTaskSet'):
+                continue
+            n_sites += 1
+            s_, obj, args = call_args(tu, n)
+            fname = f['q'].split('::')[-1]
+            inst = '[INTERNAL] detail::%s: scheduler of %s' % (fname, q.split('::')[-1])
+            loc = tu.loc(n)
+            key = lambda d: '%s|%s|%s|%s' % (R, F_TASKSYS, fname, d)
+            src = sched_source(tu, obj) if obj is not None else None
+            if src is None:
+                ctx.undecided(R, inst, 'where the scheduler object `%s` comes from is not recognised' % (tu.show(obj) if obj else '?'), loc)
+                continue
+            if src[0] == 'owner':
+                ctx.ok(R, inst, 'the scheduler is read out of the owning pointer `%s` at the call' % src[1].get('name'), loc)
+                n_ok += 1
+                continue
+            if src[0] != 'var':
+                ctx.undecided(R, inst, 'the scheduler object is `%s`' % src[0], loc)
+                continue
+            cvd = src[1]
+            cname = cvd.get('name', '?')
+            stor = _var_storage(tu, cvd)
+            # everything that is ever stored in the variable
+            sources, unknown = [], []
+            if tu.kids(cvd):
+                sources.append((None, cvd, sched_source(tu, tu.kids(cvd)[0])))
+            for f2 in _fns_of_file(tu, F_TASKSYS):
+                for r in refs_to(tu, f2, cvd['id']):
+                    if is_rvalue_read(tu, r):
+                        continue
+                    up = tu.par(r)
+                    if up is not None and up.get('kind') == 'BinaryOperator' and up.get('opcode') == '=' and \
+                            tu.kids(up)[0].get('id') == r.get('id'):
+                        sources.append((f2, up, sched_source(tu, tu.kids(up)[1])))
+                    else:
+                        unknown.append(tu.loc(r))
+            owners = {s3[1]['id']: s3[1] for f2, nd, s3 in sources if s3 is not None and s3[0] == 'owner'}
+            if unknown or any(s3 is None or s3[0] == 'var' for f2, nd, s3 in sources) or len(owners) > 1:
+                ctx.undecided(R, inst, 'the scheduler pointer `%s` (%s storage) is written in a way that is not followed' % (cname, stor), loc)
+                continue
+            if not owners:
+                if any(s3[0] == 'new' for f2, nd, s3 in sources):
+                    ctx.ok(R, inst, '`%s` is itself the pointer the scheduler is created into; it is read at the call' % cname, loc)
+                    n_ok += 1
+                else:
+                    ctx.undecided(R, inst, 'the scheduler pointer `%s` is never set from a recognised source' % cname, loc)
+                continue
+            ovd = next(iter(owners.values()))
+            oname = ovd.get('name', '?')
+            ows = owner_writes(tu, ovd, F_TASKSYS)
+            if ows is None:
+                ctx.undecided(R, inst, 'uses of the owning pointer `%s` are not all recognised' % oname, loc)
+                continue
+            stale = []
+            for f2, w in ows:
+                g2 = tu.cfg(f2)
+                wp = g2.where(w['id'])
+                refreshed = False
+                if stor != 'thread' and wp is not None:
+                    for f3, nd, s3 in sources:
+                        if f3 is not None and f3['id'] == f2['id'] and s3[0] == 'owner':
+                            np_ = g2.where(nd['id'])
+                            if np_ is not None and np_ != wp and g2.postdominates(np_, wp):
+                                refreshed = True
+                if not refreshed:
+                    stale.append((f2, w))
+            if not stale:
+                ctx.ok(R, inst, '`%s` is a copy of `%s.get()` that is refreshed after every replacement of `%s`' % (cname, oname, oname), loc)
+                n_ok += 1
+                continue
+            f2, w = stale[0]
+            where_set = [nd for f3, nd, s3 in sources if s3[0] == 'owner']
+            ctx.violation(R, inst,
+                          'the scheduler is taken from `%s`, a %s copy of `%s.get()` (set at %s) instead of from `%s` itself: %s() at %s '
+                          'replaces `%s` - the old scheduler is destroyed - %s, so a thread that has run a loop before the task system is '
+                          'initialised again keeps the pointer to the destroyed scheduler and its next parallel_for schedules into / waits '
+                          'on freed memory (no index runs, crash); the scheduler has to be read from `%s` at every call'
+                          % (cname, 'thread_local' if stor == 'thread' else 'static', oname,
+                             tu.loc(where_set[0]) if where_set else '?', oname, f2['q'].split('::')[-1], tu.loc(w), oname,
+                             'and a thread_local copy cannot be refreshed for the other threads at all' if stor == 'thread'
+                             else 'without storing the new pointer into `%s`' % cname, oname),
+                          loc, key=key('scheduler-pointer-cached'))
+    ctx.floor(R, n_sites, 2, 'scheduler object of AddTaskSetToPipe / WaitforTask in TaskSys.cpp')
 
 
 def summaries_used(summaries):
@@ -5228,6 +5454,12 @@ def block_count_paths(tu, f, g, call, nbp, ppath, N, B, signs, signed):
 
 def ceil_form(NB, N, B, signs, signed):
     """classify a block-count normal form.  returns ('ok', name) | ('bad', key, text) | None"""
+    # `c ? 1 : 0` is the value of the comparison c itself, `c ? 0 : 1` that of its negation
+    for a_ in list(NB.t):
+        if a_[0] == 'ite' and a_[1][0] == 'cmp' and a_[2].is_const() and a_[3].is_const() and {a_[2].c, a_[3].c} == {0, 1}:
+            c_ = a_[1] if a_[2].c == 1 else negate_cmp(a_[1])
+            if c_ is not None and c_[0] == 'cmp':
+                NB = NB - Lin.atom(a_).scale(NB.t[a_]) + Lin.atom(c_).scale(NB.t[a_])
     at = NB.single_atom()
     Bc = Lin.const(B)
     if at is not None and at[0] == 'ite':
@@ -5294,7 +5526,9 @@ def ceil_form(NB, N, B, signs, signed):
             m = Lin.atom(('mod', N, Bc))
             if c[1] == '!=' and c[2] in (m, -m):
                 if signed and 'N' in signs:
-                    return ('bad', 'blocks-negative-count', 'n / B + (n % B != 0) is 1 for -B < n < 0: a block is invoked for a negative count')
+                    return ('bad', 'blocks-negative-count', 'the block count n / B + (n % B != 0) is used without excluding n < 0: division '
+                            'truncates toward zero and % keeps the sign of n, so for -B < n < 0 it is 0 + 1 = 1 block - block 0 is '
+                            'invoked (with [0, B)) for a negative count, which must invoke nothing; the form is ceil(n/B) only for n >= 0')
                 return ('ok', 'n/B+(n%B!=0)')
             if c[1] == '<' and c[2] == -m:
                 return ('ok', 'n/B+(n%B>0)')
@@ -6265,6 +6499,9 @@ def describe(ctx):
     ctx.describe('R-C01-3', 'every integral conversion between the count / index and its consumer preserves every value it can carry there')
     ctx.describe('R-C01-4', 'parallel_in_blocks_of: numBlocks == ceil(n/B), begin == b*B, end == min(begin+B, n), nothing for n <= 0, '
                             'no intermediate value leaves its computation type')
+    ctx.describe('R-C01-8', 'internal backend: scheduleTaskInternal / waitInternal use the scheduler that exists at the time of the call '
+                            '(read from the owning pointer g_ts, which initTaskSystemInternal may replace between two loops), not a copy of '
+                            'the raw pointer that outlives the call')
     ctx.describe('R-C01-5', 'parallel_foreach: count == distance(begin, end); element i is begin[i] for every accepted iterator type; '
                             'the container overload forwards (begin(c), end(c), f)')
     ctx.describe('R-C01-6', 'enkiTS: running-count token discipline (increment before publication, one decrement after each ExecuteRange '
@@ -6330,6 +6567,7 @@ def run(ctx):
 
     # internal backend: library units
     check_tasksys(ctx, tu_sys, summaries)
+    check_scheduler_object(ctx, tu_sys)
     check_add_task_set(ctx, tu_enki)
     check_wait_for_task(ctx, tu_enki)
     split_fn = check_split_task(ctx, tu_enki)
